@@ -349,6 +349,41 @@ fn run_history(o: &PhonOracle, spec: CfgSpec, steps: &[Step], root: &std::path::
     }
 }
 
+fn flush_trace(t: &crate::systrace::TraceTally, out: &mut Out) {
+    out.count("syscall_monitor.traced_child_processes", t.runs);
+    out.count("syscall_monitor.system_calls_observed", t.syscalls);
+    out.count("syscall_monitor.learning_commits_with_exactly_one_rename_onto_the_store", t.learn_windows);
+    out.count("syscall_monitor.preselected_commits_observed_writing_nothing", t.same_windows);
+    out.count("syscall_monitor.other_calls_observed_writing_nothing", t.quiet_windows);
+    out.count("syscall_monitor.renames_onto_the_store", t.renames_onto_store);
+    out.count("syscall_monitor.bytes_written_to_temporary_files", t.bytes_written_to_temporaries);
+    out.count("syscall_monitor.unavailable", t.unavailable);
+}
+
+/// One traced child process: a history of typings, learning / non-learning commits, restarts and re-configurations whose
+/// system calls are checked against the trace specification of systrace.rs.
+fn trace_one(env: &Env, tseed: u64, rounds: usize, out: &mut Out, tt: &mut crate::systrace::TraceTally) {
+    let root = env.root("c09-traced");
+    let logs = env.root("c09-trace-logs");
+    let case = |child: &Value| json!({"syscall_trace": true, "trace_seed": tseed, "rounds": rounds, "child_history": child});
+    out.begin_case(|| case(&Value::Null));
+    match crate::systrace::run_and_check(&root, &logs, tseed, rounds, tt) {
+        Ok((viol, child)) => {
+            if out.want_sample() && tseed % 4 == 0 {
+                out.sample(json!({"syscall_trace_of_child": child, "verdict": if viol.is_empty() { "every learning commit = open/write/close of a temporary file + one rename onto the store; nothing else wrote" } else { "violations" }}));
+            }
+            for v in viol {
+                let mut c = case(&child);
+                c["system_calls"] = json!(v.excerpt);
+                out.violation(v.clause, v.sig, c, v.expected, v.observed);
+            }
+        }
+        Err(why) => out.note(format!("syscall monitor could not observe: {why}")),
+    }
+    let _ = std::fs::remove_dir_all(&root);
+    let _ = std::fs::remove_dir_all(&logs);
+}
+
 impl Prop for C09 {
     fn id(&self) -> &'static str {
         "C09"
@@ -357,7 +392,7 @@ impl Prop for C09 {
         "histories of 5-24 (quick) / 5-40 (thorough) words from a small per-history vocabulary (2-4 of 17 bases incl. three with a backslash, a caret, a dollar sign, 13 suffixes incl. the three longest of the table, 3 wrappings over the C03 punctuation set with quote-heavy weighting; a bare ':' excluded, the escaped colon ':`' included as trailing punctuation), \
          suggestions on, English and smart quotes free; every word is typed with front-end protocol selection bytes, the pre-selection is judged against a 20-line model (word -> committed candidate, latest wins; updated only by commits of a non-pre-selected index), \
          in a quarter of the words 1-2 more letters are typed and erased again so that the list committed from is the answer to a backspace; then either the pre-selected or another index is committed; the store file is parsed after every commit; a quarter of the histories start with a left-over temporary store file (4 kB) in the user directory; a context restart before 1 word in 7 and, at the end of every history, every learned text is typed once more in a new context. \
-         Re-typings under another wrapping are recorded as observations only. distinct_nontrivial = distinct (text, options, position in history) typings."
+         Re-typings under another wrapping are recorded as observations only. Syscall monitor: 4 (quick) / 128 (thorough) child processes run 18-40 rounds of typing, learning and non-learning commits, restarts and re-configurations under strace, every library call bracketed by marker system calls; the recorded open/write/close/rename/unlink/truncate calls under the user directory are checked against a trace specification (the store path is never opened for writing, truncated, unlinked or moved; it changes only by a rename of a file that was written and closed before, exactly once per learning commit; nothing else writes). distinct_nontrivial = distinct (text, options, position in history) typings."
             .into()
     }
     fn assumptions(&self) -> Vec<String> {
@@ -413,8 +448,26 @@ impl Prop for C09 {
             run_history(&o, spec, &steps, &root, true, out, &mut t);
         }
         flush(&t, out);
+        // the same clauses observed from outside: system calls of a traced child process (see systrace.rs)
+        let nshards = env.nshards.max(1);
+        let per = env.tier.pick(1, 4);
+        let mut tt = crate::systrace::TraceTally::default();
+        for k in 0..per {
+            let tseed = env.seed.wrapping_mul(1000).wrapping_add((env.shard * per + k) as u64);
+            if env.shard >= env.tier.pick(4, nshards) {
+                break;
+            }
+            trace_one(env, tseed, env.tier.pick(18, 40), out, &mut tt);
+        }
+        flush_trace(&tt, out);
     }
     fn replay(&self, env: &Env, case: &Value, out: &mut Out) {
+        if case.get("syscall_trace").and_then(|b| b.as_bool()).unwrap_or(false) {
+            let mut tt = crate::systrace::TraceTally::default();
+            trace_one(env, case.get("trace_seed").and_then(|s| s.as_u64()).unwrap_or(1), case.get("rounds").and_then(|s| s.as_u64()).unwrap_or(18) as usize, out, &mut tt);
+            flush_trace(&tt, out);
+            return;
+        }
         let Ok(o) = PhonOracle::new() else { return };
         let Some(spec) = case.get("cfg").and_then(CfgSpec::from_json) else { return };
         let steps: Vec<Step> = case
